@@ -52,6 +52,25 @@ def run(c):
         fam = rng.choice(sorted(byfam))
         a, b = rng.choice(byfam[fam]), rng.choice(byfam[fam])
         cases.append(dict(k="dec2", entry="plain", inp=a["inp"], inp2=b["inp"]))
+    # a decoded message is held while the same message type with OTHER don't-care header octets goes through the decoder (and
+    # the encoder) twice; only then is the first message read: its single body and its header view are its own
+    for p in routed:
+        for v in hdr_variants_any(p["inp"]):
+            cases.append(dict(k="dechold", entry="plain", inp=p["inp"], inp2=v))
+            cases.append(dict(k="dechold", entry="plain", inp=v, inp2=p["inp"]))
+    # nested messages: every container-like element of every message carrying the minimal instance of every message of both
+    # families (and, for the payload container of the NAS transport messages, every payload container type): the decoder
+    # populates ONE body, the outer one, whatever the contents look like
+    inners = []
+    for t in TABLES:
+        if t["family"] == "ENV": continue
+        inners.append(plain_minimal(t["name"]))
+    for t in TABLES:
+        if t["family"] == "ENV": continue
+        for sname in container_slots(t["name"]):
+            for inner in (inners if thorough else rng.sample(inners, 12)):
+                for fixed in ((0x01, 0x11, 0x05, 0x0F) if "Transport" in t["name"] else (0x00, 0x01)):
+                    cases.append(dict(k="dec", entry="plain", inp=with_container(t["name"], sname, inner, fixed)))
     for p in rng.sample(routed, min(len(routed), 60)):
         cases.append(dict(k="dec2", entry="plain", inp=p["inp"], inp2=[p["inp"][0]]))          # then a too-short input
     # encode dispatch: the never-dispatched envelope body populated next to known / unknown types
